@@ -4,6 +4,7 @@ section cut the pre-formatted text into consecutive slices; together the slices 
 in order, for every token list with at least one placeholder and every text.
 -/
 import XlModel.NumFmt
+import XlModel.Lemmas.NumFmt
 
 namespace XlModel.NumFmt
 
@@ -291,5 +292,65 @@ theorem commaLoop_digits (s : Str) : ∀ f, digitsOf (commaLoop f s) = digitsOf 
     · rw [List.nil_append]
       show digitsOf ([c] ++ commaLoop false cs) = digitsOf ([c] ++ cs)
       rw [digitsOf_append, digitsOf_append, ih]
+
+/-! ## the decimal-point split of printCommaSep -/
+
+theorem splitC_no (sep : Char) (s : Str) (h : sep ∉ s) : splitC sep s = [s] := by
+  induction s with
+  | nil => rfl
+  | cons c cs ih =>
+    have hc : c ≠ sep := fun e => h (by simp [e])
+    have hcs : sep ∉ cs := fun e => h (by simp [e])
+    unfold splitC
+    rw [if_neg hc, ih hcs]
+
+theorem splitC_at (sep : Char) (b : Str) :
+    ∀ a : Str, sep ∉ a → splitC sep (a ++ sep :: b) = a :: splitC sep b := by
+  intro a
+  induction a with
+  | nil => intro _; simp [splitC]
+  | cons c cs ih =>
+    intro h
+    have hc : c ≠ sep := fun e => h (by simp [e])
+    have hcs : sep ∉ cs := fun e => h (by simp [e])
+    rw [List.cons_append, splitC, if_neg hc, ih hcs]
+
+theorem printCommaSep_no_point (p : Str) (h : '.' ∉ p) : printCommaSep p = commaLoop true p := by
+  unfold printCommaSep
+  rw [splitC_no '.' p h]
+
+theorem printCommaSep_point (p q : Str) (hp : '.' ∉ p) (hq : '.' ∉ q) :
+    printCommaSep (p ++ '.' :: q) = commaLoop true p ++ '.' :: q := by
+  unfold printCommaSep
+  rw [splitC_at '.' q p hp, splitC_no '.' q hq]
+
+/-- a text with at most one '.' is `p` or `p.q` with point-free `p`, `q` -/
+theorem one_point_cases (text : Str) (h : text.count '.' ≤ 1) :
+    '.' ∉ text ∨ ∃ p q, text = p ++ '.' :: q ∧ '.' ∉ p ∧ '.' ∉ q := by
+  by_cases hm : '.' ∈ text
+  · right
+    obtain ⟨p, q, he, hp⟩ := List.eq_append_cons_of_mem hm
+    refine ⟨p, q, he, hp, ?_⟩
+    rw [he, List.count_append, List.count_cons_self] at h
+    have : q.count '.' = 0 := by omega
+    exact List.count_eq_zero.mp this
+  · exact Or.inl hm
+
+theorem printCommaSep_digits (text : Str) (h : text.count '.' ≤ 1) :
+    digitsOf (printCommaSep text) = digitsOf text := by
+  rcases one_point_cases text h with hn | ⟨p, q, he, hp, hq⟩
+  · rw [printCommaSep_no_point text hn, commaLoop_digits]
+  · rw [he, printCommaSep_point p q hp hq, digitsOf_append, commaLoop_digits, digitsOf_append]
+
+theorem printCommaSep_strip (text : Str) (h : text.count '.' ≤ 1) (hc : ∀ c ∈ text, c ≠ ',') :
+    (printCommaSep text).filter (· ≠ ',') = text := by
+  rcases one_point_cases text h with hn | ⟨p, q, he, hp, hq⟩
+  · rw [printCommaSep_no_point text hn, commaLoop_strip text hc true]
+  · subst he
+    have hcp : ∀ c ∈ p, c ≠ ',' := fun c hx => hc c (by simp [hx])
+    have hcq : ∀ c ∈ '.' :: q, c ≠ ',' := fun c hx => hc c (List.mem_append_right _ hx)
+    rw [printCommaSep_point p q hp hq, List.filter_append, commaLoop_strip p hcp true]
+    congr 1
+    exact List.filter_eq_self.mpr (fun c hx => by simpa using hcq c hx)
 
 end XlModel.NumFmt
